@@ -674,10 +674,18 @@ fn run_plan_assets(out: &mut Out, thorough: bool) {
         AndOr(bx(pk(0)), bx(Older(4_194_305)), bx(pk(4))),
         OrI(bx(AndV(bx(v(pk(3))), bx(Hash(HK::Sha256, 0)))), bx(pk(7))),
     ];
+    // scripts on which the two satisfier modes disagree for some asset subset (signatures held,
+    // preimage not): every wrapper must route into_plan_mall to the malleable satisfier
+    let mode_scripts: Vec<Node> = vec![
+        AndV(bx(v(pk(0))), bx(OrD(bx(pk(1)), bx(Hash(HK::Sha256, 0))))),
+        AndV(bx(OrC(bx(pk(1)), bx(v(Hash(HK::Sha256, 0))))), bx(pk(0))),
+    ];
+    let n_plain = scripts.len();
+    let scripts: Vec<Node> = scripts.into_iter().chain(mode_scripts.into_iter()).collect();
     let mut dds: Vec<(c17::DD, &'static str, Option<u32>, String, Vec<Node>)> = vec![];
     for (w, name) in [(c17::Wrap::Wsh, "wsh"), (c17::Wrap::Sh, "sh"), (c17::Wrap::ShWsh, "shwsh")] {
-        for n in &scripts {
-            if w != c17::Wrap::Wsh && !thorough && n.size() > 4 { continue; }
+        for (si, n) in scripts.iter().enumerate() {
+            if si < n_plain && w != c17::Wrap::Wsh && !thorough && n.size() > 4 { continue; }
             if let Some(dd) = c17::dd_ms(w, n) { dds.push((dd, name, None, "0".into(), vec![n.clone()])); }
         }
     }
@@ -837,5 +845,5 @@ pub fn run(out: &mut Out, thorough: bool, seed: u64) {
     run_desc(out, thorough, &mut rng);
     run_plan_assets(out, thorough);
     out.note("distinct_nontrivial", n_frag.to_string());
-    out.note("domain", "B-typed fragments (enumerated depth 3/4, random, corpora: j: wrappers, twin branches, raw pkh, uncompressed keys, all hash kinds) x concrete (nLockTime,nSequence) on both sides of every lock x subsets of keys, preimages, raw key/signature switches; descriptors wsh/shwsh/sh/bare/pkh/wpkh/shwpkh and tr over 11 tree shapes x key subsets x preimages/locks/key-path signature with real signatures".into());
+    out.note("domain", "B-typed fragments (enumerated depth 3/4, random, corpora: j: wrappers, twin branches, raw pkh, uncompressed keys, all hash kinds) x concrete (nLockTime,nSequence) on both sides of every lock x subsets of keys, preimages, raw key/signature switches; descriptors wsh/shwsh/sh/bare/pkh/wpkh/shwpkh and tr over 11 tree shapes x key subsets x preimages/locks/key-path signature with real signatures; planner (into_plan / into_plan_mall on plan::Assets): 10 scripts + 2 scripts on which the two satisfier modes disagree (signatures held, preimage not) through wsh, sh and sh(wsh) each".into());
 }
